@@ -87,6 +87,36 @@ def h_addline(m, ctx, nws, npre, n, ty, layout=None, prefix_layout=None):
             'prefix_syms': [b if isinstance(b, int) else b[1] for b in prefix],
             'line_syms': [b if isinstance(b, int) else b[1] for b in line]}
     accepted = (r.idx == 0)
+    if prefix_layout is not None:
+        # D3: for a prefix with multi-byte characters the README does not say whether "as many spaces as the prefix is long" counts
+        # bytes or characters; either reading is accepted, but it must be ONE reading: the padding that is matched is the padding
+        # that is cut off
+        from spec.prims import starts_with, beq, rtrim
+        from mirsym.core import t_bytes_eq, t_or
+        nchars = len(bytes(b if isinstance(b, int) else 120 for b in prefix).decode('utf8', 'replace'))
+        want_c = None
+        if starts_with(ctx, line, ws):
+            x = tuple(line[len(ws):])
+            if beq(ctx, x, rtrim(ctx, prefix)):
+                want_c = ()
+            elif starts_with(ctx, x, prefix):
+                want_c = rtrim(ctx, x[len(prefix):])
+            elif starts_with(ctx, x, (32,) * nchars):
+                want_c = rtrim(ctx, x[nchars:])
+        data['spec_bytes_reading'] = None if want is None else show_bytes(want)
+        data['spec_chars_reading'] = None if want_c is None else show_bytes(want_c)
+        if not accepted:
+            if want is not None and want_c is not None:
+                violation(ctx, 'add_line: a continuation line is rejected under both readings of the padding length', data)
+            ctx.cover('rejected')
+            return
+        ctx.cover('accepted')
+        cands = [w for w in (want, want_c) if w is not None and len(w) == len(after[3][-1])]
+        if len(after[3]) != 2 or not cands:
+            violation(ctx, 'add_line: accepted line / argument matches neither reading of the padding length', data)
+        ctx.check_holds(t_or(*[t_bytes_eq(tuple(after[3][-1]), tuple(w)) for w in cands]),
+                        'add_line: continuation argument matches neither reading of the padding length', data)
+        return
     if accepted != (want is not None):
         violation(ctx, 'add_line: accept/reject differs from G2', dict(data, impl=accepted, spec=want is not None))
     check_bytes_equal(ctx, after[0], ws, 'add_line: whitespace field changed', data)
@@ -210,11 +240,26 @@ def replay(native, v):
         ws, prefix, line = conc('ws_syms'), conc('prefix_syms'), conc('line_syms')
         out = native.ask('add_line %s %s %s 1 %s %s' % (hexs(ws), hexs(prefix), d['type'], hexs(b'a0'), hexs(line)))
         want = grammar.continuation(cc, (tuple(ws), tuple(prefix), d['type']), tuple(line))
-        if want is None:
-            exp = 'ERR %s %s %s 1 %s' % (hexs(ws), hexs(prefix), d['type'], hexs(b'a0'))
-        else:
-            exp = 'OK %s %s %s 2 %s %s' % (hexs(ws), hexs(prefix), d['type'], hexs(b'a0'), hexs(bytes(want)))
-        return out != exp, {'ws': repr(ws), 'prefix': repr(prefix), 'type': d['type'], 'line': repr(line), 'native': out, 'spec': exp}
+        def fmt_(w):
+            if w is None:
+                return 'ERR %s %s %s 1 %s' % (hexs(ws), hexs(prefix), d['type'], hexs(b'a0'))
+            return 'OK %s %s %s 2 %s %s' % (hexs(ws), hexs(prefix), d['type'], hexs(b'a0'), hexs(bytes(w)))
+        exp = fmt_(want)
+        exps = [exp]
+        if any(b >= 0x80 for b in prefix) and d['type'] in grammar.MULTILINE:
+            # D3: the character-count reading of the padding length is accepted as well
+            nchars = len(prefix.decode('utf8', 'replace'))
+            want_c = None
+            if line.startswith(ws):
+                x = line[len(ws):]
+                if x == prefix.rstrip():
+                    want_c = b''
+                elif x.startswith(prefix):
+                    want_c = bytes(grammar.rtrim(cc, tuple(x[len(prefix):]))) if hasattr(grammar, 'rtrim') else x[len(prefix):].rstrip()
+                elif x.startswith(b' ' * nchars):
+                    want_c = x[nchars:].rstrip()
+            exps.append(fmt_(want_c))
+        return out not in exps, {'ws': repr(ws), 'prefix': repr(prefix), 'type': d['type'], 'line': repr(line), 'native': out, 'spec': exps}
     if d['op'] == 'pair':
         first, line = conc('first_syms'), conc('line_syms')
         o1 = native.ask('detect_from ' + hexs(first))
